@@ -78,10 +78,10 @@ var c20Docs = map[string]c20Doc{
 	"NodeWays": {"/node/%d/ways", "way", false, "feature"}, "NodeRelations": {"/node/%d/relations", "relation", false, "feature"},
 	"WayRelations": {"/way/%d/relations", "relation", false, "feature"}, "RelationRelations": {"/relation/%d/relations", "relation", false, "feature"},
 	"WayFull": {"/way/%d/full", "all", false, "feature"}, "RelationFull": {"/relation/%d/full", "all", false, "feature"},
-	"Map": {"/map", "all", false, "feature"},
+	"Map":       {"/map", "all", false, "feature"},
 	"Changeset": {"/changeset/%d", "changeset", true, ""}, "ChangesetWithDiscussion": {"/changeset/%d", "changeset", true, ""},
 	"ChangesetDownload": {"/changeset/%d/download", "change", false, ""},
-	"Note": {"/notes/%d", "note", true, ""}, "Notes": {"/notes", "note", false, "notes"}, "NotesSearch": {"/notes/search", "note", false, "notes"},
+	"Note":              {"/notes/%d", "note", true, ""}, "Notes": {"/notes", "note", false, "notes"}, "NotesSearch": {"/notes/search", "note", false, "notes"},
 	"User": {"/user/%d", "user", true, ""},
 }
 
